@@ -137,6 +137,7 @@ class PathState:
         self.solver_checks = 0
         self.solver_time = 0.0
         self.labels: List[str] = []
+        self.memo: Dict[Any, Any] = {}  # results of pure contracts (same arguments -> same result)
 
     # --- symbols
     def fresh(self, base, sort="Real"):
